@@ -263,8 +263,9 @@ func (m *mergedIterator) initQueue() {
 	for _, it := range m.its {
 		if it.Valid() {
 			m.pq = append(m.pq, &item{
-				it:    it,
-				key:   it.Key(),
+				it: it,
+				// NOTE: need copy key, because trie iterator reuse key when iterate
+				key:   append([]byte(nil), it.Key()...),
 				index: i,
 			})
 			it.Next()
@@ -290,7 +291,7 @@ func (m *mergedIterator) HasNext() bool {
 		// if it has value, push back queue and adjust priority
 		it := item.it
 		if it.Valid() {
-			item.key = it.Key()
+			item.key = append(item.key[:0], it.Key()...)
 			m.pq.Push(item)
 			m.pq.update(item)
 
